@@ -4,7 +4,7 @@
 (* equal the NaN-ignoring minimum, maximum and mean of its actual values,  *)
 (* however the file was produced.                                          *)
 (*                                                                         *)
-(* State: the feature's values `data` (integers or NaN) and the summary    *)
+(* State: the feature's values `data` (integers, NaN, +inf) and the summary    *)
 (* attributes stored next to them (`attrs`, absent = has |-> FALSE); the   *)
 (* reader reports the stored attribute when present and computes from the  *)
 (* data otherwise, so the property is the invariant StoredCorrect.  The    *)
@@ -19,10 +19,27 @@ CONSTANTS Vals,        \* finite integer values a feature may take
           MaxLen,      \* bound on Len(data)
           MaxBlock,    \* bound on the block written by one call
           CopyKinds,   \* which copying tools are explored
-          CountValid   \* repaired running mean
+          CountValid,  \* repaired running mean
+          WithInf      \* the value alphabet includes +infinity
 
 NaN == 99
-V == Vals \cup {NaN}
+Inf == 98
+V == Vals \cup {NaN} \cup (IF WithInf THEN {Inf} ELSE {})
+
+\* +infinity among the rationals (only +infinity is modelled, so inf - inf
+\* never arises; inf * 0 is NaN as in IEEE arithmetic)
+RInf == <<1, 0>>
+IsInf(r) == r = RInf
+XNaN(r) == r = RNaN
+XAdd(a, b) == IF XNaN(a) \/ XNaN(b) THEN RNaN
+              ELSE IF IsInf(a) \/ IsInf(b) THEN RInf ELSE RAdd(a, b)
+XMul(a, b) == IF XNaN(a) \/ XNaN(b) THEN RNaN
+              ELSE IF IsInf(a) \/ IsInf(b)
+                   THEN (IF a = <<0, 1>> \/ b = <<0, 1>> THEN RNaN ELSE RInf)
+                   ELSE RMul(a, b)
+XDivInt(a, k) == IF XNaN(a) \/ k = 0 THEN RNaN
+                 ELSE IF IsInf(a) THEN RInf ELSE RDivInt(a, k)
+XLess(a, b) == IF IsInf(a) THEN FALSE ELSE IF IsInf(b) THEN TRUE ELSE RLess(a, b)
 
 VARIABLES data,        \* Seq(V): the stored values
           attrs,       \* [has, min, max, mean]: stored summaries (rationals)
@@ -37,13 +54,19 @@ FiniteIdx(s) == {i \in 1..Len(s) : s[i] # NaN}
 RECURSIVE SumOver(_, _)
 SumOver(s, I) == IF I = {} THEN 0
                  ELSE LET i == CHOOSE j \in I : TRUE IN s[i] + SumOver(s, I \ {i})
+\* (FiniteIdx: the values that are not NaN; +infinity is a value)
+RealIdx(s) == {i \in FiniteIdx(s) : s[i] # Inf}
+HasInf(s) == \E i \in FiniteIdx(s) : s[i] = Inf
 NanMin(s) == IF FiniteIdx(s) = {} THEN RNaN
-             ELSE FromInt(CHOOSE v \in {s[i] : i \in FiniteIdx(s)} :
-                            \A j \in FiniteIdx(s) : v <= s[j])
+             ELSE IF RealIdx(s) = {} THEN RInf
+             ELSE FromInt(CHOOSE v \in {s[i] : i \in RealIdx(s)} :
+                            \A j \in RealIdx(s) : v <= s[j])
 NanMax(s) == IF FiniteIdx(s) = {} THEN RNaN
+             ELSE IF HasInf(s) THEN RInf
              ELSE FromInt(CHOOSE v \in {s[i] : i \in FiniteIdx(s)} :
                             \A j \in FiniteIdx(s) : v >= s[j])
 NanMean(s) == IF FiniteIdx(s) = {} THEN RNaN
+              ELSE IF HasInf(s) THEN RInf
               ELSE Norm(SumOver(s, FiniteIdx(s)), Cardinality(FiniteIdx(s)))
 Stats(s) == [has |-> TRUE, min |-> NanMin(s), max |-> NanMax(s), mean |-> NanMean(s)]
 NoAttrs == [has |-> FALSE, min |-> RNaN, max |-> RNaN, mean |-> RNaN]
@@ -62,8 +85,8 @@ StoredCorrect ==
 Blocks == UNION {[1..k -> V] : k \in 1..MaxBlock}
 
 \* nan-aware combination used by the writer: ufunc([a, b])
-Min2(a, b) == IF IsNaN(a) THEN b ELSE IF IsNaN(b) THEN a ELSE IF RLess(b, a) THEN b ELSE a
-Max2(a, b) == IF IsNaN(a) THEN b ELSE IF IsNaN(b) THEN a ELSE IF RLess(a, b) THEN b ELSE a
+Min2(a, b) == IF XNaN(a) THEN b ELSE IF XNaN(b) THEN a ELSE IF XLess(b, a) THEN b ELSE a
+Max2(a, b) == IF XNaN(a) THEN b ELSE IF XNaN(b) THEN a ELSE IF XLess(a, b) THEN b ELSE a
 
 NValid(s) == Cardinality(FiniteIdx(s))
 
@@ -73,7 +96,7 @@ RunMean(meanA, numA, blk) ==
         numB == IF CountValid THEN NValid(blk) ELSE Len(blk)
     IN  IF CountValid /\ numA = 0 THEN meanB
         ELSE IF CountValid /\ numB = 0 THEN meanA
-        ELSE RDivInt(RAdd(RMul(meanA, FromInt(numA)), RMul(meanB, FromInt(numB))),
+        ELSE XDivInt(XAdd(XMul(meanA, FromInt(numA)), XMul(meanB, FromInt(numB))),
                      numA + numB)
 
 Init == /\ data = <<>> /\ attrs = NoAttrs /\ valid = 0 /\ resizable = TRUE
